@@ -370,6 +370,8 @@ void World::checkPayloads(int i, const Op& op, const Obs& before) {
 		// must be a prefix-closed concatenation of approved rounds' pending lists
 		std::vector<Tr> approved;
 		{ int lastRound = -1; for (auto& g : h.guards) if (g.round != lastRound) { lastRound = g.round; bool cancelled = false; for (auto& g2 : h.guards) if (g2.round == g.round && g2.cancelled) cancelled = true; if (!cancelled) approved.insert(approved.end(), g.pending.begin(), g.pending.end()); } }
+		// requests guards issued may have been applied by a further round that consulted nobody
+		for (size_t k = 0; k < h.trace.size(); ++k) { const Ev& e = h.trace[k]; if (e.k == EV_ISSUE && fge >= 0 && int(k) >= fge) { Tr t; t.origin = e.state; t.kind = e.a; t.dest = e.b; t.hasPayload = e.hasP; t.payload = e.p; approved.push_back(t); } }
 		if (h.guards.empty()) { approved = issued; for (size_t k = 0; k < h.trace.size(); ++k) { const Ev& e = h.trace[k]; if (e.k == EV_ISSUE && !(fge < 0 || int(k) < fge)) { Tr t; t.origin = e.state; t.kind = e.a; t.dest = e.b; t.hasPayload = e.hasP; t.payload = e.p; approved.push_back(t); } } }
 		size_t j = 0;
 		for (size_t k = 0; k < approved.size() && j < v.current.size(); ++k) if (approved[k] == v.current[j]) ++j;
